@@ -68,6 +68,12 @@ func (g *G) readerOf(m *grl.Model, pi *pathInfo, want bool) *grl.Expr {
 		if !ok {
 			iv = int64(grlInt(v0))
 		}
+		if len(pi.p.Steps) == 1 && pi.p.Steps[0].Field == "I" && (pi.p.Root == "F" || pi.p.Root == "G") && g.R.Chance(1, 3) {
+			// read the field through a method whose result depends on it: changes must be announced
+			// with Forget/Changed naming the call (added by AnnounceFieldMethods)
+			core = grl.Bin(g.R.PickStr("==", "<=", ">="), &grl.Expr{K: "call", Path: grl.P(pi.p.Root), Fn: "Level"}, valueLit(iv))
+			break
+		}
 		switch g.R.Intn(5) {
 		case 0:
 			core = grl.Bin("==", pe, valueLit(iv))
@@ -246,6 +252,17 @@ func (g *G) shareTemplate(p *grl.Program, facts *grl.Facts) bool {
 	default:
 		call = &grl.Expr{K: "call", Path: grl.P(recv), Fn: "Scale", Args: []*grl.Expr{grl.LitFloat(1.5)}}
 		ret = grl.TFloat
+	}
+	if g.R.Chance(1, 3) {
+		// a mutator announced with Changed("X.I") next to a counted call whose text merely CONTAINS "X.I"
+		// (X.IsBig(3)): the announcement names a variable of the rule set and must not open a new epoch
+		call = &grl.Expr{K: "call", Path: grl.P(recv), Fn: "IsBig", Args: []*grl.Expr{grl.LitInt(g.R.PickInt64(3, 12))}}
+		ret = grl.TBool
+		g.mutN++
+		p.Rules = append(p.Rules,
+			&grl.Rule{Name: "Sm", Salience: sal(5), When: grl.Bin(">=", grl.PathE(grl.P(recv+".I")), grl.LitInt(0-1000000)),
+				Then: []*grl.Action{{K: "mut", E: &grl.Expr{K: "call", Path: grl.P(recv), Fn: "SetI", Args: []*grl.Expr{grl.LitInt(int64(200 + g.mutN))}}},
+					{K: g.R.PickStr("changed", "forget"), Text: recv + ".I"}, {K: "retract", Name: "Sm"}}})
 	}
 	k := g.R.Range(2, 4)
 	for i := 0; i < k; i++ {
